@@ -518,8 +518,15 @@ impl<T> DataReaderEntity<T> {
                 total_samples == self.qos.resource_limits.max_samples
             };
             let is_max_instances_limit_reached = {
+                // As for the other limits only data samples count: an instance of which the reader holds
+                // nothing but a dispose or unregister notification does not occupy a slot
                 let mut instance_handle_list = Vec::new();
-                for sample_handle in self.sample_list.iter().map(|x| x.instance_handle) {
+                for sample_handle in self
+                    .sample_list
+                    .iter()
+                    .filter(|x| x.kind == ChangeKind::Alive)
+                    .map(|x| x.instance_handle)
+                {
                     if !instance_handle_list.contains(&sample_handle) {
                         instance_handle_list.push(sample_handle);
                     }
@@ -528,8 +535,6 @@ impl<T> DataReaderEntity<T> {
                 if instance_handle_list.contains(&sample.instance_handle) {
                     false
                 } else {
-                    // Dispose/unregister notifications are stored regardless of the limits, so the number of
-                    // instances held can already be above max_instances
                     instance_handle_list.len() >= self.qos.resource_limits.max_instances
                 }
             };
